@@ -23,6 +23,8 @@ enum Op {
     DeleteNode(u8),
     UpdateNode(u8),
     UpdateEdge(u8),
+    /// batch_create_edges([(a -> b, directed), (b -> a, undirected)]) — the bulk construction path
+    BatchEdges(u8, u8, bool),
 }
 
 #[derive(Clone, Debug, PartialEq, Eq, Hash, PartialOrd, Ord, Serialize, Deserialize)]
@@ -185,6 +187,27 @@ fn apply(s: &mut SeqState, op: &Op) -> bool {
             s.r.nodes.remove(&id);
             s.r.edges.retain(|e| e.from != id && e.to != id);
         }
+        Op::BatchEdges(a, b, first_directed) => {
+            let (Some(&from), Some(&to)) = (s.node_slots.get(*a as usize), s.node_slots.get(*b as usize)) else { return false };
+            let should = s.r.nodes.contains(&from) && s.r.nodes.contains(&to);
+            let inputs = vec![graph_engine::EdgeInput::new(from, to, "E", props(7), *first_directed), graph_engine::EdgeInput::new(to, from, "E", props(8), false)];
+            match s.g.batch_create_edges(inputs) {
+                Ok(r) if r.created_ids.len() == 2 => {
+                    s.edge_slots.extend(r.created_ids.iter().copied());
+                    s.r.edges.insert(RefEdge { id: r.created_ids[0], from, to, directed: *first_directed });
+                    s.r.edges.insert(RefEdge { id: r.created_ids[1], from: to, to: from, directed: false });
+                }
+                Ok(_) => {
+                    s.r.edges.insert(RefEdge { id: u64::MAX - 3, from, to, directed: true }); // forces a report: wrong id count
+                }
+                Err(_) => {
+                    if should {
+                        s.r.edges.insert(RefEdge { id: u64::MAX, from, to, directed: *first_directed }); // forces a report: creation refused
+                    }
+                    return !should;
+                }
+            }
+        }
         Op::UpdateNode(k) => {
             let Some(&id) = s.node_slots.get(*k as usize) else { return false };
             let _ = s.g.update_node(id, None, props(99));
@@ -214,6 +237,9 @@ fn seq_alphabet() -> Vec<Op> {
     }
     v.push(Op::UpdateNode(0));
     v.push(Op::UpdateEdge(0));
+    v.push(Op::BatchEdges(0, 1, true));
+    v.push(Op::BatchEdges(1, 0, false));
+    v.push(Op::BatchEdges(0, 0, true));
     v
 }
 fn canon(s: &SeqState) -> String {
@@ -512,7 +538,7 @@ fn main() {
     let thorough = rep.thorough();
     let bound = if thorough { 3 } else { 2 };
     let depth = if thorough { 4 } else { 3 };
-    rep.rule(&format!("S: BFS over every sequence of <= {depth} operations {{create_node, create_edge (directed/undirected, self-loops, parallel), delete_edge, delete_node, update_node, update_edge}} on <= 3 nodes / <= 3 edges, replayed on a fresh real GraphEngine, dedup on the observed graph; after every step the structural invariant and agreement of all_edges/edges_of/degrees/neighbors/get_edge/node_exists with the reference edge set. T: for each program (2-3 threads creating/deleting edges and nodes on a shared hub) every schedule with <= {bound} preemptions; quiescent invariant + agreement with the results the calls returned. non-trivial = schedules with >= 1 preemption + distinct sequential states"));
+    rep.rule(&format!("S: BFS over every sequence of <= {depth} operations {{create_node, create_edge (directed/undirected, self-loops, parallel), batch_create_edges, delete_edge, delete_node, update_node, update_edge}} on <= 3 nodes / <= 3 edges, replayed on a fresh real GraphEngine, dedup on the observed graph; after every step the structural invariant and agreement of all_edges/edges_of/degrees/neighbors/get_edge/node_exists with the reference edge set. T: for each program (2-3 threads creating/deleting edges and nodes on a shared hub) every schedule with <= {bound} preemptions; quiescent invariant + agreement with the results the calls returned. non-trivial = schedules with >= 1 preemption + distinct sequential states"));
     rep.assume("interleavings at lock-acquisition granularity (every parking_lot/dashmap lock in graph_engine and tensor_store); harness sizes stay below the rayon PARALLEL_THRESHOLD of delete_node");
     // Part S in this process (rayon), Part T in worker processes
     let s = part_s(depth);
